@@ -83,6 +83,11 @@ func (b *ByteBuffer) Commit(n int) {
 		return
 	}
 
+	if n > b.wi-b.ri {
+		// Clamp before adding: b.ri + n may overflow.
+		n = b.wi - b.ri
+	}
+
 	b.ri += n
 	if b.ri > b.wi {
 		b.ri = b.wi
